@@ -588,6 +588,55 @@ def multiref_referrer_stays(ctx):
                  {"stream": "multiref-referrer"}, got, want)
 
 
+def multiref_forward_chains(ctx):
+    """The replacement is applied to every referring node - also to the ones that arrive inside copied content: a
+    referrer whose target comes later in the body and itself refers on (the usual Axis layout: result first, then
+    id0, id1, ... each pointing forward), to any depth, in either document order."""
+    from suds.bindings.multiref import MultiRef
+    from suds.sax.parser import Parser
+    rng = ctx.rng
+    for variant in ("forward", "backward", "shuffled"):
+        depth = rng.randint(2, 5)
+        blocks = []
+        for i in range(depth):
+            inner = '<v%d>%d</v%d>' % (i, i, i) + ('<next href="#id%d"/>' % (i + 1) if i + 1 < depth else '')
+            blocks.append('<multiRef id="id%d" enc:root="0">%s</multiRef>' % (i, inner))
+        if variant == "backward":
+            blocks.reverse()
+        elif variant == "shuffled":
+            rng.shuffle(blocks)
+        doc = ('<e:Envelope xmlns:e="%s" xmlns:enc="%s"><e:Body><r:resp xmlns:r="urn:a"><first href="#id0"/>'
+               '<second href="#id%d"/></r:resp>%s</e:Body></e:Envelope>'
+               % (xmlread.ENV11, xmlread.ENC, depth - 1, "".join(blocks))).encode()
+        body = Parser().parse(string=doc).root().getChild("Body")
+        ctx.case(("multiref-chain", variant, depth), True)
+        MultiRef().process(body)
+
+        def shape(n):
+            return [n.name, (n.getText() or "").strip() or None, [shape(c) for c in n.children],
+                    sorted(a.name for a in n.attributes if a.name in ("href", "id"))]
+
+        def want_from(i):
+            kids = [["v%d" % i, str(i), [], []]]
+            if i + 1 < depth:
+                kids.append(["next", None, want_from(i + 1), []])
+            return kids
+        want = [["resp", None, [["first", None, want_from(0), []], ["second", None, want_from(depth - 1), []]], []]]
+        got = [shape(c) for c in body.children]
+        if got != want:
+            ctx.fail("a chain of references was not resolved at every referring node",
+                     {"stream": "multiref-chain", "variant": variant, "doc": doc.decode()}, got, want)
+        else:
+            bad = []
+            for top in body.children:
+                for n in top.branch()[1:]:
+                    if not any(k is n for k in n.parent.children):
+                        bad.append(n.name)
+            if bad:
+                ctx.fail("copied content has parent links that do not match the children lists",
+                         {"stream": "multiref-chain", "variant": variant, "doc": doc.decode()}, bad, [])
+
+
 def aliased_nodes(ctx):
     """Edits go by the object given, also in states the element API lets a caller build that are not trees: a node
     appended under two parents (append does not detach), two attribute objects with one qualified name."""
@@ -763,6 +812,7 @@ def run(ctx):
     aliased_nodes(ctx)
     imported_schema_tree(ctx)
     multiref_referrer_stays(ctx)
+    multiref_forward_chains(ctx)
     document_lookups(ctx)
     if runs:
         ctx.sample({"forest": runs[0]["forest"], "ops": runs[0]["ops"][:4]})
